@@ -169,7 +169,7 @@ def run(tier):
                  'user-function call begins; non-trivial = distinct cases that reached evaluation' % STEP_TIMEOUT)
     cs = cases(tier)
     rep.bounds = {'cases': len(cs), 'limits': LIMITS, 'size_limit_variants': ['none (bounded-memory cases only)', SIZE], 'watchdog_s': STEP_TIMEOUT}
-    MEM = ('1000000000000', '10000000000', '10 ** (10 ** 6)', 'pow(2, 1000000000)', 'factorial(1000000)', '100000)', '[" * 100000', '100000, 3')
+    MEM = ('9223372036854775807).to_array', '1000000000000', '10000000000', '10 ** (10 ** 6)', 'pow(2, 1000000000)', 'factorial(1000000)', '100000)', '[" * 100000', '100000, 3')
     for variant in ('size', 'nosize'):
         limits = dict(LIMITS)
         if variant == 'size':
